@@ -1405,9 +1405,22 @@ run_m_one(const struct mgrdesc *d, IMB_MGR *m)
                 n = IMB_SUBMIT_CIPHER_BURST(m, cj, 3, IMB_CIPHER_CBC, IMB_DIR_ENCRYPT, IMB_KEY_128_BYTES);
                 ok = ok && n == 3 && imb_get_errno(m) == 0 && memcmp(d0, NA.ref_dst, 64) == 0 && memcmp(d2, NA.ref_dst, 64) == 0;
                 m_line(d->name, "cipher_burst(job[1].src=NULL)", ok, (int) n, e, IMB_ERR_JOB_NULL_SRC, "none-processed-then-ok");
+                /* NULL array (rows for all three synchronous entry points): return 0 without faulting, IMB_ERR_NULL_BURST
+                 * from imb_get_errno() AND in the manager's own error field, a valid burst works afterwards */
                 n = IMB_SUBMIT_CIPHER_BURST(m, NULL, 3, IMB_CIPHER_CBC, IMB_DIR_ENCRYPT, IMB_KEY_128_BYTES);
                 e = imb_get_errno(m);
-                m_line(d->name, "cipher_burst(jobs=NULL)", n == 0 && e == IMB_ERR_NULL_BURST, (int) n, e, IMB_ERR_NULL_BURST, "");
+                {
+                        char extra[96];
+                        const int in_mgr = m->imb_errno;
+                        for (int i = 0; i < 3; i++)
+                                memset(dd[i], 0xA5, 64);
+                        const uint32_t n2 = IMB_SUBMIT_CIPHER_BURST(m, cj, 3, IMB_CIPHER_CBC, IMB_DIR_ENCRYPT, IMB_KEY_128_BYTES);
+                        const int after = (n2 == 3 && imb_get_errno(m) == 0 && memcmp(d0, NA.ref_dst, 64) == 0 &&
+                                           memcmp(d1, NA.ref_dst, 64) == 0 && memcmp(d2, NA.ref_dst, 64) == 0);
+                        snprintf(extra, sizeof(extra), "mgr-errno=%d valid-burst-afterwards=%d", in_mgr, after);
+                        m_line(d->name, "cipher_burst(jobs=NULL)", n == 0 && e == IMB_ERR_NULL_BURST && in_mgr == IMB_ERR_NULL_BURST && after,
+                               (int) n, e, IMB_ERR_NULL_BURST, extra);
+                }
                 n = IMB_SUBMIT_CIPHER_BURST(m, cj, 3, IMB_CIPHER_DES, IMB_DIR_ENCRYPT, IMB_KEY_128_BYTES);
                 e = imb_get_errno(m);
                 m_line(d->name, "cipher_burst(cipher=DES)", n == 0 && e == IMB_ERR_CIPH_MODE, (int) n, e, IMB_ERR_CIPH_MODE, "");
@@ -1436,24 +1449,20 @@ run_m_one(const struct mgrdesc *d, IMB_MGR *m)
                 n = IMB_SUBMIT_HASH_BURST(m, hj, 3, IMB_AUTH_AES_XCBC);
                 e = imb_get_errno(m);
                 m_line(d->name, "hash_burst(hash=XCBC)", n == 0 && e == IMB_ERR_HASH_ALGO, (int) n, e, IMB_ERR_HASH_ALGO, "");
-                /* NULL array.  Every other burst entry point records IMB_ERR_NULL_BURST in the manager; the hash
-                 * burst (submit_hash_burst_and_check) calls imb_set_errno(NULL, IMB_ERR_NULL_JOB): another code, and
-                 * only the global error variable is written.  The header documents no error codes for this call, so
-                 * the row passes when the call returns 0 without faulting and imb_get_errno() yields either NULL-pointer
-                 * code; the difference is printed (`deviation:`) and recorded in the evidence (checks/c12.py decides
-                 * whether deviations count, see STRICT_MISUSE_ROWS). */
+                /* NULL array.  On the pinned snapshot this row found a defect: submit_hash_burst_and_check() called
+                 * imb_set_errno(NULL, IMB_ERR_NULL_JOB) -- another code than every sibling entry point, stored in the
+                 * global error variable only (mgr->imb_errno stayed 0).  Repaired in /repo by 79af205. */
                 hj[1].auth_tag_output_len_in_bytes = 12;
                 n = IMB_SUBMIT_HASH_BURST(m, NULL, 3, IMB_AUTH_HMAC_SHA_1);
                 e = imb_get_errno(m);
                 {
-                        char extra[128];
+                        char extra[96];
                         const int in_mgr = m->imb_errno;
                         const uint32_t n2 = IMB_SUBMIT_HASH_BURST(m, hj, 3, IMB_AUTH_HMAC_SHA_1);
                         const int after = (n2 == 3 && imb_get_errno(m) == 0 && memcmp(t0, NA.ref_tag, 12) == 0 &&
                                            memcmp(t1, NA.ref_tag, 12) == 0 && memcmp(t2, NA.ref_tag, 12) == 0);
-                        snprintf(extra, sizeof(extra), "mgr-errno=%d valid-burst-afterwards=%d%s", in_mgr, after,
-                                 (e != IMB_ERR_NULL_BURST || in_mgr != e) ? " deviation:code-or-manager-field" : "");
-                        m_line(d->name, "hash_burst(jobs=NULL)", n == 0 && (e == IMB_ERR_NULL_BURST || e == IMB_ERR_NULL_JOB) && after,
+                        snprintf(extra, sizeof(extra), "mgr-errno=%d valid-burst-afterwards=%d", in_mgr, after);
+                        m_line(d->name, "hash_burst(jobs=NULL)", n == 0 && e == IMB_ERR_NULL_BURST && in_mgr == IMB_ERR_NULL_BURST && after,
                                (int) n, e, IMB_ERR_NULL_BURST, extra);
                 }
         }
@@ -1463,8 +1472,26 @@ run_m_one(const struct mgrdesc *d, IMB_MGR *m)
                 memset(aj, 0, sizeof(aj));
                 n = IMB_SUBMIT_AEAD_BURST(m, NULL, 2, IMB_CIPHER_CCM, IMB_DIR_ENCRYPT, IMB_KEY_128_BYTES);
                 e = imb_get_errno(m);
-                m_line(d->name, "aead_burst(jobs=NULL)", n == 0 && e == IMB_ERR_NULL_BURST && m->imb_errno == e, (int) n, e,
-                       IMB_ERR_NULL_BURST, "");
+                {
+                        char extra[96];
+                        const int in_mgr = m->imb_errno;
+                        struct view vv;
+                        memset(&vv, 0, sizeof(vv));
+                        vv.f[2] = 16;
+                        vv.f[16] = IMB_CIPHER_CCM;
+                        vv.f[17] = IMB_DIR_ENCRYPT;
+                        vv.f[18] = IMB_AUTH_AES_CCM;
+                        snbr_init();
+                        int after = (snbr_reference(m, &SN[0], SYNC_AEAD, &vv) == 0 && snbr_reference(m, &SN[1], SYNC_AEAD, &vv) == 0);
+                        snbr_fill(&aj[0], &SN[0], SYNC_AEAD, &vv);
+                        snbr_fill(&aj[1], &SN[1], SYNC_AEAD, &vv);
+                        const uint32_t n2 = IMB_SUBMIT_AEAD_BURST(m, aj, 2, IMB_CIPHER_CCM, IMB_DIR_ENCRYPT, IMB_KEY_128_BYTES);
+                        after = after && n2 == 2 && imb_get_errno(m) == 0 && snbr_ok(&aj[0], &SN[0]) && snbr_ok(&aj[1], &SN[1]);
+                        snprintf(extra, sizeof(extra), "mgr-errno=%d valid-burst-afterwards=%d", in_mgr, after);
+                        m_line(d->name, "aead_burst(jobs=NULL)", n == 0 && e == IMB_ERR_NULL_BURST && in_mgr == IMB_ERR_NULL_BURST && after,
+                               (int) n, e, IMB_ERR_NULL_BURST, extra);
+                        memset(aj, 0, sizeof(aj));
+                }
                 n = IMB_SUBMIT_AEAD_BURST(m, aj, 2, IMB_CIPHER_GCM, IMB_DIR_ENCRYPT, IMB_KEY_128_BYTES);
                 e = imb_get_errno(m);
                 m_line(d->name, "aead_burst(cipher=GCM)", n == 0 && e == IMB_ERR_CIPH_MODE && aj[0].status == 0 && aj[1].status == 0,
